@@ -6,11 +6,12 @@
 //
 // Op language / observations: see lean/Cell2v/Driver/C02.lean.
 //
-//	reset nc=<k> | bind c=<i> to=<name|-> | reqs q=<c>,<id>,<route>,<pay>|… | pipe c=<i> q=… | adv | flush
+//	reset nc=<k> | bind c=<i> to=<name|-> | reqs [frag=<k>] q=<c>,<id>,<route>,<pay>|… | pipe c=<i> q=… | adv | flush
 //	obs: r=<c>:resp:<id>:<err>:<hex>,…  i=<svc>:<method>:<v>,…   (both sorted: multisets)
 package c02
 
 import (
+	"errors"
 	"fmt"
 	"math"
 	"reflect"
@@ -34,6 +35,7 @@ import (
 	"github.com/dfklegend/cell2/node/service"
 	"github.com/dfklegend/cell2/nodectrl/define"
 	"github.com/dfklegend/cell2/pomelonet/common/conn/message"
+	"github.com/dfklegend/cell2/pomelonet/server/acceptor"
 )
 
 // ---------------------------------------------------------------- handler zoo
@@ -88,6 +90,21 @@ func (z *Zoo) Late(ctx *impls.HandlerContext, a *Arg, cb apientry.HandlerCBFunc)
 	})
 }
 
+// S29 / S33 complete just inside / just outside the 30 s request timeout.
+func (z *Zoo) S29(ctx *impls.HandlerContext, a *Arg, cb apientry.HandlerCBFunc) {
+	ns, r := enter(ctx, "s29", a)
+	ns.GetRunService().GetTimerMgr().After(29*time.Second, func(args ...interface{}) {
+		apientry.CheckInvokeCBFunc(cb, nil, r)
+	})
+}
+
+func (z *Zoo) S33(ctx *impls.HandlerContext, a *Arg, cb apientry.HandlerCBFunc) {
+	ns, r := enter(ctx, "s33", a)
+	ns.GetRunService().GetTimerMgr().After(33*time.Second, func(args ...interface{}) {
+		apientry.CheckInvokeCBFunc(cb, nil, r)
+	})
+}
+
 // RetNaN can not be marshalled by the json serializer.
 type RetNaN struct {
 	F float64 `json:"f"`
@@ -97,6 +114,12 @@ type RetNaN struct {
 func (z *Zoo) Nan(ctx *impls.HandlerContext, a *Arg, cb apientry.HandlerCBFunc) {
 	enter(ctx, "nan", a)
 	apientry.CheckInvokeCBFunc(cb, nil, &RetNaN{F: math.NaN()})
+}
+
+// Fail0 fails with an error whose text is empty (msgs.Response.Error == "" is read as success by Forward).
+func (z *Zoo) Fail0(ctx *impls.HandlerContext, a *Arg, cb apientry.HandlerCBFunc) {
+	enter(ctx, "fail0", a)
+	apientry.CheckInvokeCBFunc(cb, errors.New(""), nil)
 }
 
 // Login binds a user id to the session and pushes the session to the front (as a login handler
@@ -118,6 +141,30 @@ func (z *Zoo) Loginw(ctx *impls.HandlerContext, a *Arg, cb apientry.HandlerCBFun
 // Tell is notify-shaped (no completion function).
 func (z *Zoo) Tell(ctx *impls.HandlerContext, a *Arg) {
 	enter(ctx, "tell", a)
+}
+
+// ZooB is registered as group "zoob" of the BACK-END types only (chat.handler, hall.handler):
+// handlers that break the "completes exactly once" rule. A forwarded request survives both (the
+// request timeout answers for a silent handler, the front drops a second reply as "miss response");
+// front-local the same handlers leave the client without / with two responses (reported, not run).
+type ZooB struct {
+	api.APIEntry
+}
+
+// Hang is asynchronous and its continuation panics inside the service's timer (timer.Mgr recovers
+// and swallows the panic): it never completes.
+func (z *ZooB) Hang(ctx *impls.HandlerContext, a *Arg, cb apientry.HandlerCBFunc) {
+	ns, _ := enter(ctx, "hang", a)
+	ns.GetRunService().GetTimerMgr().After(1*time.Second, func(args ...interface{}) {
+		panic("zoob: continuation failed")
+	})
+}
+
+// Okboom completes and then panics in the same frame: SafeCall completes a second time.
+func (z *ZooB) Okboom(ctx *impls.HandlerContext, a *Arg, cb apientry.HandlerCBFunc) {
+	_, r := enter(ctx, "okboom", a)
+	apientry.CheckInvokeCBFunc(cb, nil, r)
+	panic("zoob: panic after completion")
 }
 
 // ---------------------------------------------------------------- world
@@ -143,8 +190,13 @@ func members(n2 int) []*cluster.Member {
 func start(h *hx.T) *world {
 	for _, t := range []string{"gate", "chat", "hall"} {
 		node.RegisterHandler(t, &Zoo{}, "zoo")
+		if t != "gate" {
+			node.RegisterHandler(t, &ZooB{}, "zoob")
+		}
 	}
 	node.RouteBySessionKey("chat", "chatid")
+	// every session reads its packets through the REAL tcpPlayerConn.GetNextMessage (overlay shim)
+	node.Framing = acceptor.VerifTCPPlayerConn
 	n := node.Start(node.Options{
 		Services: []node.Svc{{Name: "gate-1", Type: "gate", Front: true}, {Name: "chat-1", Type: "chat"},
 			{Name: "chat-2", Type: "chat"}, {Name: "hall-1", Type: "hall"}, {Name: "hall-2", Type: "hall"}},
@@ -279,13 +331,26 @@ func (w *world) exec(op string) string {
 			}
 			frames[ci] = append(frames[ci], pk...)
 		}
-		// all clients write at once: their traffic is in flight together
+		// all clients write at once: their traffic is in flight together; frag=<k>: each client's
+		// bytes reach the server in pieces of k bytes (TCP segments that arrive one by one: one
+		// Read of the server never crosses a piece boundary)
+		frag := 0
+		if _, ok := hx.KV(ws, "frag"); ok {
+			frag = hx.KVInt(ws, "frag")
+		}
 		var wg sync.WaitGroup
 		for _, ci := range order {
 			wg.Add(1)
 			go func(ci int) {
 				defer wg.Done()
-				w.clients[ci].Write(frames[ci])
+				b := frames[ci]
+				for frag > 0 && len(b) > frag {
+					if !w.clients[ci].Write(b[:frag]) {
+						return
+					}
+					b = b[frag:]
+				}
+				w.clients[ci].Write(b)
 			}(ci)
 		}
 		wg.Wait()
@@ -399,7 +464,7 @@ func (w *world) exec(op string) string {
 var (
 	types      = []string{"gate", "gate", "chat", "chat", "chat", "hall", "room"}
 	groups     = []string{"zoo", "zoo", "zoo", "zoo", "zoo", "zoo", "zoo", "zoo", "nogrp", ""}
-	methods    = []string{"echo", "echo", "echo", "fail", "boom", "slow", "slow", "late", "tell", "tell", "nan", "login", "loginw", "nosuch", ""}
+	methods    = []string{"echo", "echo", "echo", "fail", "boom", "slow", "slow", "late", "s29", "s33", "tell", "tell", "nan", "fail0", "login", "loginw", "nosuch", ""}
 	// routes that are not valid UTF-8 (%xx = raw byte): a forwarded envelope can not be serialised
 	badUTF8    = []string{"hall.zoo.ech%ff", "chat.zoo.%c3%28", "hall.%fezoo.echo", "chat.zoo.echo%80", "gate.zoo.ech%ff", "ha%ffll.zoo.echo"}
 	malformed  = []string{"", ".", "..", "...", "gate", "gatezooecho", "gate.zoo", "chat.zoo", "gate.zoo.echo.x", "chat.zoo.echo.x", "a.b.c.d.e", "gate..", "chat..", "..echo", ".zoo.echo", "gate.zoo.", "chat..echo", "gate.zoo.echo.", ".gate.zoo.echo"}
@@ -421,6 +486,12 @@ func (g *gen) route() string {
 	if r.Intn(40) == 0 {
 		g.h.Count("route.badutf8")
 		return badUTF8[r.Intn(len(badUTF8))]
+	}
+	if r.Intn(25) == 0 {
+		// the back-only group: a handler that never completes / completes twice (at gate: no such group)
+		rt := []string{"chat", "chat", "hall", "hall", "gate"}[r.Intn(5)] + ".zoob." + []string{"hang", "okboom", "okboom"}[r.Intn(3)]
+		g.h.Count("route.zoob." + rt)
+		return rt
 	}
 	if r.Intn(100) < 15 {
 		g.h.Count("route.malformed")
@@ -592,7 +663,14 @@ func (g *gen) genCase() []string {
 			for j := range items {
 				items[j] = g.item(nc)
 			}
-			ops = append(ops, "reqs q="+strings.Join(items, "|"))
+			fr := ""
+			if r.Intn(4) == 0 {
+				// the burst arrives in small pieces (packet heads and bodies split across reads)
+				k := []int{1, 2, 3, 5, 7, 16, 64}[r.Intn(7)]
+				g.h.Count("burst.fragmented")
+				fr = fmt.Sprintf("frag=%d ", k)
+			}
+			ops = append(ops, "reqs "+fr+"q="+strings.Join(items, "|"))
 		default:
 			ops = append(ops, "adv")
 		}
